@@ -294,6 +294,8 @@ def check(cls, case, rec):
 
     def recording_solver(A, M, sigma, **kw):
         seen.update(A=A.copy(), M=M.copy(), sigma=sigma, kw=dict(kw))
+        if cls == "mixed-hexahedron":
+            kw = dict(kw, v0=np.random.default_rng(case["seed"]).uniform(-1, 1, A.shape[0]))
         w_, V_ = eigsh(A=A, M=M, sigma=sigma, **kw)
         return (w_[::-1].copy(), V_[:, ::-1].copy()) if descending else (w_, V_)
 
@@ -303,8 +305,13 @@ def check(cls, case, rec):
         rec.label("separate-global-field-x0")
     kw = {}
     if cls == "mixed-hexahedron":
-        # scipy draws ARPACK's start vector from the global RNG; fixed here so that a case is a pure function of its data
-        kw["v0"] = np.random.default_rng(case["seed"]).uniform(-1, 1, len(dof1))
+        # scipy draws ARPACK's start vector from the global RNG; fixed here so that a case is a pure function of its data. The vector
+        # is sized inside a solver wrapper from the matrix the job really hands over (a start vector of another length makes ARPACK
+        # read past its end - a crash of the checking process instead of a reported violation)
+        def sized_solver(A, M, sigma, **kw2):
+            return eigsh(A=A, M=M, sigma=sigma, v0=np.random.default_rng(case["seed"]).uniform(-1, 1, A.shape[0]), **kw2)
+
+        kw["solver"] = sized_solver
     sigma = 0
     if case["seed"] % 5 == 0 and cls != "mixed-hexahedron":
         # a user-chosen spectral shift (handed through to the eigensolver)
@@ -312,7 +319,7 @@ def check(cls, case, rec):
         kw["sigma"] = sigma
         rec.label("sigma-keyword")
     if case["seed"] % 2:
-        job = fem.FreeVibration(items, bounds).evaluate(k=k, solver=recording_solver, **kw, **xkw)
+        job = fem.FreeVibration(items, bounds).evaluate(k=k, **dict(kw, solver=recording_solver), **xkw)
         K11s, M11s = K[dof1][:, dof1], M[dof1][:, dof1]
         ok = rec.require("solver-receives-free-block-shapes", seen["A"].shape == K11s.shape and seen["M"].shape == M11s.shape, [seen["A"].shape, K11s.shape])
         if ok:
@@ -463,7 +470,11 @@ def rigid_check(cls, case, rec):
     if cls == "mixed-hexahedron" and nfree_u < 2 * max(2 * k + 1, 20):
         rec.reject("small singular pencil: ARPACK may drop copies of multiple eigenvalues (see the eigenpairs family)")
         return
-    kw = {"v0": np.random.default_rng(case["seed"]).uniform(-1, 1, len(dof1m))} if cls == "mixed-hexahedron" else {}
+    kw = {}
+    if cls == "mixed-hexahedron":
+        from scipy.sparse.linalg import eigsh as _eigsh
+
+        kw = {"solver": lambda A, M, sigma, **kw2: _eigsh(A=A, M=M, sigma=sigma, v0=np.random.default_rng(case["seed"]).uniform(-1, 1, A.shape[0]), **kw2)}
     j1 = fem.FreeVibration([fem.SolidBody(um, fc, density=rho)], bounds).evaluate(k=k, **kw)
     if cls in ("hexahedron", "quad-planestrain") and case["seed"] % 2 == 0:
         # stress recovery of a mode shape between the two analyses (extrapolation from the quadrature points of a region that
